@@ -51,12 +51,20 @@ class RemoveEmptyStringConcatenation(
     ) -> cst.BaseExpression:
         left = updated_node.left
         right = updated_node.right
+
+        def keep_parens(node):
+            # the operand that stays inherits the parentheses of the concatenation (it may span lines inside them)
+            return node.with_changes(
+                lpar=[*updated_node.lpar, *node.lpar],
+                rpar=[*node.rpar, *updated_node.rpar],
+            )
+
         if is_empty_string_literal(left):
             if is_empty_string_literal(right):
-                return cst.SimpleString(value='""')
-            return right
+                return keep_parens(cst.SimpleString(value='""'))
+            return keep_parens(right)
         if is_empty_string_literal(right):
             if is_empty_string_literal(left):
-                return cst.SimpleString(value='""')
-            return left
+                return keep_parens(cst.SimpleString(value='""'))
+            return keep_parens(left)
         return updated_node
